@@ -910,3 +910,139 @@ func wsStallRun(t *testing.T, sp *wsStallSpec, sched simrt.Schedule) *simrt.Resu
 		st.Completed = true
 	})
 }
+
+
+// ---- C13, relay teardown: a real handler tree behind Relay.ServeHTTP over the
+// simulated connection; the session is ended by an orderly close, by a
+// connection reset or by cancelling the server's request context after the
+// history; afterwards everything must be released.
+
+func wsCutRun(t *testing.T, c *C13Case, how string) *simrt.Result {
+	return simrt.Run(t, c.Sched, 3000000, func(sim *simrt.Sim) {
+		st := &sim.Res.Stats
+		env := &c13Env{}
+		env.hctx, env.hcancel = context.WithCancel(context.Background())
+		h := env.build(&c.Tree)
+		if env.err != nil {
+			sim.Res.Harness = "build: " + env.err.Error()
+			env.hcancel()
+			return
+		}
+		opt := wsOpt{SendTimeoutMs: 1000, PingMs: 5000, Rate: 1000, Burst: 10, MaxLen: 100000}
+		if c.WS != nil {
+			opt.SendTimeoutMs, opt.PingMs = c.WS.Opt.SendTimeoutMs, c.WS.Opt.PingMs
+		}
+		relay := mocrelay.NewRelay(h, relayOpt(opt))
+		mux := &mocrelay.ServeMux{Relay: relay}
+		sim.Drive()
+		base := census()
+		srvCtx, srvCancel := context.WithCancel(context.Background())
+		sim.Cleanup(srvCancel)
+		ctx, cancel := context.WithCancel(context.Background())
+		sim.Cleanup(cancel)
+		var conn *websocket.Conn
+		var link *simrt.WSLink
+		var dialErr error
+		dialed, writerDone := false, false
+		chunk := 4096
+		if c.WS != nil {
+			chunk = c.WS.Conn.Chunk
+		}
+		sim.Go("wsc", func() {
+			conn, link, dialErr = sim.DialWS(ctx, srvCtx, "ws0", mux, simrt.SimConnCfg{Chunk: chunk})
+			dialed = true
+			if dialErr != nil {
+				writerDone = true
+				return
+			}
+			sim.Go("wsc.rd", func() {
+				for {
+					verifsim.Yield("wsc.rd")
+					if _, _, err := conn.Read(ctx); err != nil {
+						return
+					}
+				}
+			})
+			for i := range c.History {
+				verifsim.Yield("wsc.wr")
+				m := c.History[i]
+				if m.Ev != nil {
+					e := *m.Ev
+					e.Sign = true
+					m.Ev = &e
+				}
+				if err := conn.Write(ctx, websocket.MessageText, marshalNoEscape(msgWire(&m))); err != nil {
+					break
+				}
+			}
+			writerDone = true
+		})
+		for i := 0; i < 60 && !writerDone; i++ {
+			sim.Drive()
+			sim.Advance(20 * time.Millisecond)
+		}
+		sim.Drive()
+		if !dialed || dialErr != nil || link == nil {
+			sim.Res.Harness = fmt.Sprintf("dial: %v", dialErr)
+			return
+		}
+		switch how {
+		case "ws-close":
+			sim.Go("wsc.close", func() { conn.Close(websocket.StatusNormalClosure, "") })
+		case "ws-reset":
+			st.Fault("conn-reset")
+			link.Reset()
+		case "ws-server-cancel":
+			srvCancel()
+		}
+		st.Fault(how)
+		for i := 0; i < 30 && !link.Served.Load(); i++ {
+			sim.Drive()
+			sim.Advance(100 * time.Millisecond)
+		}
+		if !link.Served.Load() {
+			sim.Advance(30 * time.Second)
+			cls := "ws-session-ends-late"
+			if !link.Served.Load() {
+				cls = "ws-session-does-not-end"
+			}
+			sim.Violate("C13", cls, map[string]string{"how": how}, "3s of simulated time after the WebSocket session was ended (%s), Relay.ServeHTTP had not returned", how)
+		}
+		// the harness's own client connection must go too before the census
+		if conn != nil {
+			sim.Go("wsc.closenow", func() { conn.CloseNow() })
+		}
+		cancel()
+		sim.Drive()
+		sim.Advance(200 * time.Millisecond)
+		if link.Served.Load() {
+			if extra := censusDiff(base, census()); len(extra) > 0 {
+				sim.Violate("C13", "goroutine-leak", map[string]string{"how": how}, "after Relay.ServeHTTP returned, goroutines of the session are still there: %s", strings.Join(extra, "; "))
+			}
+		}
+		for i, r := range env.routers {
+			if conns, subs := r.VerifRegistry(); conns != 0 || subs != 0 {
+				sim.Violate("C13", "router-registry-leak", map[string]string{"how": how}, "router #%d still holds %d connection(s) with %d subscription(s) after the WebSocket session ended", i, conns, subs)
+			}
+		}
+		for i, reg := range env.regs {
+			if g, err := mwGather(reg); err == nil {
+				if v := g["mocrelay_connection_count{}"]; v != 0 {
+					sim.Violate("C13", "connection-gauge-leak", map[string]string{"how": how}, "prometheus middleware #%d: connection gauge is %v after the only session ended", i, v)
+				}
+				if v := g["mocrelay_req_count{}"]; v != 0 {
+					sim.Violate("C13", "subscription-gauge-leak", map[string]string{"how": how}, "prometheus middleware #%d: subscription gauge is %v after the only session ended", i, v)
+				}
+			}
+		}
+		env.hcancel()
+		srvCancel()
+		sim.Drive()
+		sim.Advance(4 * time.Second)
+		for _, db := range env.dbs {
+			db.Close()
+		}
+		sim.Drive()
+		st.Completed = true
+	})
+}
